@@ -119,7 +119,7 @@ Fixpoint trace (s : state) (ops : list op) : list obs :=
    integers, arithmetic modulo 2^63; used only here, never in a theorem) -- *)
 Definition hint := Uint63.int.
 Definition mix (h : hint) (x : N) : hint :=
-  Uint63.add (Uint63.add (Uint63.add (Uint63.lsl h 5%uint63) h) (Uint63.of_Z (Z.of_N x))) 1%uint63.
+  Uint63.add (Uint63.add (Uint63.add (Uint63.lsl h (Uint63.of_Z 5)) h) (Uint63.of_Z (Z.of_N x))) (Uint63.of_Z 1).
 
 Definition enc_entry (h : hint) (e : entry) : hint :=
   fold_left mix (edata e) (mix (mix (mix h 7) (eidx e)) (eterm e)).
@@ -159,6 +159,6 @@ Definition check_case (c : case) : bool :=
   match c with
   | Seq ops observed => list_eqb obs_eqb (observe init :: trace init ops) observed
   | Block prefix imax tmax depth hash =>
-      Z.eqb (Uint63.to_Z (block_hash imax tmax depth (N.of_nat (length prefix)) (run prefix) 0%uint63))
+      Z.eqb (Uint63.to_Z (block_hash imax tmax depth (N.of_nat (length prefix)) (run prefix) (Uint63.of_Z 0)))
             (Z.of_N hash)
   end.
